@@ -125,7 +125,7 @@ func (e *Exec) val(fr *Frame, v ssa.Value) Value {
 	case *ssa.Global:
 		return Value{T: x.Type(), L: []Term{Term{"glob." + smtName(x.Name()), SInt}}, P: &Place{Kind: PGlobal, Glob: x, Typ: x.Type().(*types.Pointer).Elem(), Base: Zero}}
 	case *ssa.Function:
-		return Value{T: x.Type(), L: []Term{IntLit(int64(1000000 + e.eng.typeID(types.NewPointer(types.NewNamed(types.NewTypeName(0, x.Package().Pkg, "fn$"+x.Name(), nil), types.Typ[types.Int], nil)))))}, Fn: &FnVal{Fn: x}}
+		return Value{T: x.Type(), L: []Term{IntLit(int64(1000000 + e.fnID(x)))}, Fn: &FnVal{Fn: x}}
 	case *ssa.FreeVar:
 		for i, fv := range fr.fn.FreeVars {
 			if fv == x {
